@@ -52,6 +52,24 @@ theorem C22_gen_mixed : nmixedFields Gen.C22.nsites =
 theorem C22_gen_closure_sigs : Gen.C22.nsites.map (·.sig) =
     [9962180, 750813433, 770316216, 645575512, 127602202, 445475324, 626413445, 900529068, 185961846, 810918193, 461168208, 794486634, 846387776, 404197383, 439951667, 597376763, 597376763, 634656143, 411050541, 132473555, 741084286, 822250875, 663867978, 570988615, 908153797, 608066761, 235357756, 297613589, 32725566, 107649028, 752979975, 842765571, 752979975, 198779052, 5243692, 165741592, 943467143, 5243692, 165741592, 446419633, 5243692, 165741592, 417197946, 626848284, 164273645, 201563087, 865888620, 532379009, 675769889, 822129809, 651535244, 264430981, 429636841, 348966836, 834228343, 345458624, 822250875, 473779557, 889055389, 413387590, 127566156, 1998080, 506730759, 615620509, 351975496, 247987263, 175385429, 347994189, 868712553, 554893124, 145703125, 437001470, 109001591, 244621206, 727979913, 171572981, 554893124, 608339328, 42436511, 372252055, 847388018, 544550613, 461121496, 919829998, 542626833, 841783865, 348822083, 775730230, 912981382, 712928288, 944127136, 257628850, 494881186, 839671127, 836597081, 439762360, 870424425] := by decide +kernel
 
+/-- pairs of history objects whose changes inside one height depend on each other (the later one reads
+    or absolutely restores what the earlier one wrote): ((name in ProcessBlock, name in RollbackTo) …).
+    E.g. `manager before committee`: `updateProposals` hands budget back with a relative
+    `CRCCommitteeUsedAmount -=` in manager.history, the committee change then captures and absolutely
+    restores that field in committeeHistory. -/
+def dependentHistories : List ((Txt × Txt) × (Txt × Txt)) :=
+  [(([99,46,102,105,114,115,116,72,105,115,116,111,114,121], [99,46,102,105,114,115,116,72,105,115,116,111,114,121]), ([99,46,115,116,97,116,101,46,72,105,115,116,111,114,121], [99,46,115,116,97,116,101])) /- first before state -/,
+   (([99,46,115,116,97,116,101,46,72,105,115,116,111,114,121], [99,46,115,116,97,116,101]), ([99,46,109,97,110,97,103,101,114,46,104,105,115,116,111,114,121], [99,46,109,97,110,97,103,101,114,46,104,105,115,116,111,114,121])) /- state before manager -/,
+   (([99,46,115,116,97,116,101,46,72,105,115,116,111,114,121], [99,46,115,116,97,116,101]), ([99,46,99,111,109,109,105,116,116,101,101,72,105,115,116,111,114,121], [99,46,99,111,109,109,105,116,116,101,101,72,105,115,116,111,114,121])) /- state before committee -/,
+   (([99,46,109,97,110,97,103,101,114,46,104,105,115,116,111,114,121], [99,46,109,97,110,97,103,101,114,46,104,105,115,116,111,114,121]), ([99,46,99,111,109,109,105,116,116,101,101,72,105,115,116,111,114,121], [99,46,99,111,109,109,105,116,116,101,101,72,105,115,116,111,114,121])) /- manager before committee -/,
+   (([99,46,99,111,109,109,105,116,116,101,101,72,105,115,116,111,114,121], [99,46,99,111,109,109,105,116,116,101,101,72,105,115,116,111,114,121]), ([99,46,97,112,112,114,111,112,114,105,97,116,105,111,110,72,105,115,116,111,114,121], [99,46,97,112,112,114,111,112,114,105,97,116,105,111,110,72,105,115,116,111,114,121])) /- committee before approp -/]
+
+/-- T-gen: `Committee.ProcessBlock` commits the dependent histories in the listed order and
+    `Committee.RollbackTo` rolls them back, inside one height, in the opposite order (swapping two
+    `RollbackTo` calls of the per-height loop breaks this lemma). -/
+theorem C22_gen_history_order :
+    orderRespects Gen.C22.commitOrder Gen.C22.rollbackOrder dependentHistories = true := by decide +kernel
+
 /-- **Generic theorem**, as C21: a history representing `chain` whose blocks are made of well-paired
     site instances capturing the pre-block state rolls back (within capacity) to exactly the direct
     build.  The committee uses six such histories side by side; the theorem applies to each. -/
